@@ -28,7 +28,7 @@ struct mm_traits : cc::michael_map::traits { typedef Hash hash; typedef cds::ato
 
 template <class GC, class S, class CFG> struct HSet : SetA<GC, S, CFG> { explicit HSet(const Program& p) { this->s.reset(new S((size_t)p.knob("max_items", 4), (size_t)p.knob("load_factor", 1))); } };
 template <class GC, class S, class CFG> struct HMap : MapA<GC, S, CFG> { explicit HMap(const Program& p) { this->s.reset(new S((size_t)p.knob("max_items", 4), (size_t)p.knob("load_factor", 1))); } };
-typedef Cfg<CAPS_FULL, false, false> C_full; typedef Cfg<CAPS_FULL, true, false> C_repl;
+typedef Cfg<CAPS_FULL, false, false> C_full; typedef Cfg<CAPS_FULL, true, false> C_repl; typedef Cfg<CAPS_FULL, false, false, true, true, true> C_lazy_rcu;
 void gen(Rng& r, Program& p, int tier, const std::string&) { GenCfg g; g.min_hazards = 8; g.hash_modes = 4; g.nkeys_hot = 4; gen_program(r, p, tier, g); p.set("max_items", r.pick({1, 2, 4, 8})); p.set("load_factor", r.pick({1, 1, 2})); }
 #define COMPH(f) "real: " f " cds/intrusive/michael_set.h + the ordered-list implementation, SMR; simulated: scheduler, faults as for lists, degenerate hash functions (constant, one-bit) chosen per run; oracle: linearizability vs key->instance map, quiescent traversal (exactly once), size()"
 #define HS(var, NAME, GC, T, CFG, F) typedef HSet<GC, T, CFG> T_##var; SM_SUBJECT(var, NAME, "C14,C20", T_##var, gen, COMPH(F))
@@ -37,7 +37,7 @@ typedef cc::MichaelHashSet<HP, cc::MichaelList<HP, Item, ml_less>, ms_traits> S1
 typedef cc::MichaelHashSet<DHP, cc::MichaelList<DHP, Item, ml_less>, ms_traits> S2; HS(s2, "hash.MichaelSet_MichaelList_DHP", DHP, S2, C_full, "cds/container/michael_set.h")
 typedef cc::MichaelHashSet<RCU_GPB, cc::MichaelList<RCU_GPB, Item, ml_less>, ms_traits> S3; HS(s3, "hash.MichaelSet_MichaelList_RCU_gpb", RCU_GPB, S3, C_full, "cds/container/michael_set_rcu.h")
 typedef cc::MichaelHashSet<HP, cc::LazyList<HP, Item, ll_cmp>, ms_traits> S4; HS(s4, "hash.MichaelSet_LazyList_HP", HP, S4, C_full, "cds/container/michael_set.h")
-typedef cc::MichaelHashSet<RCU_SHB, cc::LazyList<RCU_SHB, Item, ll_cmp>, ms_traits> S5; HS(s5, "hash.MichaelSet_LazyList_RCU_shb", RCU_SHB, S5, C_full, "cds/container/michael_set_rcu.h")
+typedef cc::MichaelHashSet<RCU_SHB, cc::LazyList<RCU_SHB, Item, ll_cmp>, ms_traits> S5; HS(s5, "hash.MichaelSet_LazyList_RCU_shb", RCU_SHB, S5, C_lazy_rcu, "cds/container/michael_set_rcu.h")
 typedef cc::MichaelHashSet<HP, cc::IterableList<HP, Item, il_less>, ms_traits> S6; HS(s6, "hash.MichaelSet_IterableList_HP", HP, S6, C_repl, "cds/container/michael_set.h")
 typedef cc::MichaelHashSet<DHP, cc::IterableList<DHP, Item, il_less>, ms_traits> S7; HS(s7, "hash.MichaelSet_IterableList_DHP", DHP, S7, C_repl, "cds/container/michael_set.h")
 typedef cc::MichaelHashMap<HP, cc::MichaelKVList<HP, long, long, ml_less>, mm_traits> M1; HM(m1, "hash.MichaelMap_MichaelKVList_HP", HP, M1, C_full, "cds/container/michael_map.h")
